@@ -104,3 +104,17 @@ def confirm_literal_value(text, nd):
     want = var_to_tagged(toks[0][2])
     a = nd.request({'op': 'search', 'expr': text, 'doc': None})
     return (a.get('kind') != 'ok' or a.get('value') != want), {'expr': text, 'expected': want, 'native': a}
+
+def confirm_token_position(text, nd):
+    """a token position is observable through the location of a parse error raised AT that token: the text is extended so that the parser fails at the end of
+    input (whose token must sit at the byte length of the text) or right after the text"""
+    tried = []
+    for suf in ('.', ' |', ' &&', ' ==', '['):
+        t = text + suf
+        ref = reference_compile(t)
+        if ref[0] != 'err' or (len(ref) > 2 and str(ref[2]).startswith('lexical')): continue
+        a = nd.request({'op': 'compile', 'expr': t})
+        tried.append({'expr': t, 'native_offset': a.get('offset'), 'bytes': len(t.encode())})
+        if a.get('kind') == 'compile-err' and 'Eof' in str(a.get('reason', '')) + str(a.get('display', '')) and a.get('offset') != len(t.encode()):
+            return True, {'expr': t, 'expected': f'parse error at the end of input, byte offset {len(t.encode())}', 'native': a}
+    return False, {'tried': tried}
